@@ -54,8 +54,8 @@ func init() {
 	})
 }
 
-func c20Trees(t string) int     { return tierN(t, 50, 500) }
-func c20PureCases(t string) int { return tierN(t, 50, 1000) }
+func c20Trees(t string) int     { return tierN(t, 50, 4000) }
+func c20PureCases(t string) int { return tierN(t, 50, 8000) }
 func c20Batch(t string) int     { return tierN(t, 400, 1000) }
 
 func runC20(rc *RunCtx) {
